@@ -18,7 +18,6 @@ else
   mode=check
 fi
 case "$prop" in
-  C16) exec python3 c16/run_c16.py "$mode" "$arg" ;;
   C20) pkg=dv_http; bin=dv_http ;;
   *)   pkg=dv_check; bin=dv_check ;;
 esac
